@@ -6,19 +6,25 @@ package main
 // It contains no oracle: expected values are computed by TLC from IceData.
 
 import (
+	"bufio"
 	"bytes"
 	"crypto/sha256"
 	"encoding/binary"
 	"encoding/hex"
+	"errors"
 	"fmt"
 	"hash/crc32"
 	"io"
 	"math"
 	"os"
 	"path/filepath"
+	"reflect"
+	"runtime/debug"
 	"sort"
 	"strings"
+	"sync/atomic"
 	"time"
+	"unsafe"
 
 	"github.com/RoaringBitmap/roaring"
 	segment "github.com/blugelabs/bluge_segment_api"
@@ -141,6 +147,8 @@ type Op struct {
 	Docs     []int      `json:"docs,omitempty"`
 	Pairs    []Pair     `json:"pairs,omitempty"`
 	Level    string     `json:"level,omitempty"`
+	Wrap     int        `json:"wrap,omitempty"` // persist/merge: the destination is a *bufio.Writer of this size ...
+	Pre      int        `json:"pre,omitempty"`  // ... in which this many bytes of the caller are still pending
 	Terms    []Pair     `json:"terms,omitempty"`
 	ReuseD   bool       `json:"reuse_dict,omitempty"`
 	Nested   *Op        `json:"nested,omitempty"` // a read issued from inside the first visitor callback
@@ -169,7 +177,29 @@ type Scenario struct {
 // ---------------------------------------------------------------------------
 // environment
 
+// countingReaderAt stands between a file-backed segment and its file: after `allow` further reads (when armed)
+// every read fails - a storage failure that starts between two reads of ONE call (C19).
+type countingReaderAt struct {
+	f     *os.File
+	armed int32
+	allow int64
+}
+
+func (c *countingReaderAt) ReadAt(p []byte, off int64) (int, error) {
+	if atomic.LoadInt32(&c.armed) != 0 && atomic.AddInt64(&c.allow, -1) < 0 {
+		return 0, errors.New("verif: injected storage failure")
+	}
+	return c.f.ReadAt(p, off)
+}
+
+// setDataReader replaces the unexported io.ReaderAt of a segment.Data (the public API only takes *os.File).
+func setDataReader(d *segment.Data, r io.ReaderAt) {
+	f := reflect.ValueOf(d).Elem().FieldByName("r")
+	reflect.NewAt(f.Type(), unsafe.Pointer(f.UnsafeAddr())).Elem().Set(reflect.ValueOf(&r).Elem())
+}
+
 type segH struct {
+	cr    *countingReaderAt
 	raw   []byte // the bytes the segment was loaded from (nil for built segments)
 	seg   segment.Segment
 	impl  *Impl
@@ -179,40 +209,40 @@ type segH struct {
 }
 
 type Env struct {
-	tr       *Trace
-	sc       *Scenario
-	norm     func(string, int) float32
-	workdir  string
-	segs     map[int]*segH
-	files    map[int][]byte
-	pls      map[int]segment.PostingsList
-	its      map[int]segment.PostingsIterator
-	dvrs     map[int]segment.DocumentValueReader
-	bms      map[int]*roaring.Bitmap
-	objIDs   map[interface{}]int
-	nextObj  int
-	watchdog time.Duration
-	inline   bool // run calls on the caller's goroutine (C14: keeps sync.Pool locality)
-	g        int  // goroutine tag for concurrent drivers
-	cov      map[string]int
-	itFlags  map[int]itFlags
-	batchBase int
+	tr             *Trace
+	sc             *Scenario
+	norm           func(string, int) float32
+	workdir        string
+	segs           map[int]*segH
+	files          map[int][]byte
+	pls            map[int]segment.PostingsList
+	its            map[int]segment.PostingsIterator
+	dvrs           map[int]segment.DocumentValueReader
+	bms            map[int]*roaring.Bitmap
+	objIDs         map[interface{}]int
+	nextObj        int
+	watchdog       time.Duration
+	inline         bool // run calls on the caller's goroutine (C14: keeps sync.Pool locality)
+	g              int  // goroutine tag for concurrent drivers
+	cov            map[string]int
+	itFlags        map[int]itFlags
+	batchBase      int
 	lastPl, lastIt int
-	dvrSeg    map[int]int
-	dits      map[int]segment.DictionaryIterator
-	sched     *scheduler
-	gateArmed bool
-	sawBlocked *bool
-	docnums   map[int][][]int
-	sink     func(M) // when set, events go here instead of the trace (digests)
+	dvrSeg         map[int]int
+	dits           map[int]segment.DictionaryIterator
+	sched          *scheduler
+	gateArmed      bool
+	sawBlocked     *bool
+	docnums        map[int][][]int
+	sink           func(M) // when set, events go here instead of the trace (digests)
 }
 
 func NewEnv(tr *Trace, sc *Scenario, workdir string) *Env {
-	return &Env{inline: os.Getenv("VERIF_INLINE") == "1",tr: tr, sc: sc, workdir: workdir,
-		norm:  normFunc(sc.NormKind, sc.Universe),
-		segs:  map[int]*segH{}, files: map[int][]byte{},
-		pls:   map[int]segment.PostingsList{}, its: map[int]segment.PostingsIterator{},
-		dvrs:  map[int]segment.DocumentValueReader{}, bms: map[int]*roaring.Bitmap{},
+	return &Env{inline: os.Getenv("VERIF_INLINE") == "1", tr: tr, sc: sc, workdir: workdir,
+		norm: normFunc(sc.NormKind, sc.Universe),
+		segs: map[int]*segH{}, files: map[int][]byte{},
+		pls: map[int]segment.PostingsList{}, its: map[int]segment.PostingsIterator{},
+		dvrs: map[int]segment.DocumentValueReader{}, bms: map[int]*roaring.Bitmap{},
 		objIDs: map[interface{}]int{}, nextObj: 1000000,
 		watchdog: 20 * time.Second * time.Duration(watchdogScale()), cov: map[string]int{}, itFlags: map[int]itFlags{}, docnums: map[int][][]int{}, dvrSeg: map[int]int{}, sawBlocked: new(bool), dits: map[int]segment.DictionaryIterator{}}
 }
@@ -262,6 +292,9 @@ func runRecover(fn func()) (res string) {
 	defer func() {
 		if r := recover(); r != nil {
 			res = fmt.Sprintf("panic: %v", r)
+			if os.Getenv("VERIF_PANIC_STACK") != "" {
+				fmt.Fprintf(os.Stderr, "PANIC %v\n%s\n", r, debug.Stack())
+			}
 		}
 	}()
 	fn()
@@ -359,7 +392,7 @@ func (e *Env) Run(ops []Op) {
 func (e *Env) missing(op *Op) bool {
 	segMu.RLock()
 	defer segMu.RUnlock()
-	needSeg := map[string]bool{"persist": true, "persist_fail": true, "dit_open": true, "close_file": true, "fields": true, "dict": true, "contains": true,
+	needSeg := map[string]bool{"persist": true, "persist_fail": true, "dit_open": true, "close_file": true, "fail_after": true, "fields": true, "dict": true, "contains": true, "dict_close": true,
 		"pl_open": true, "stored": true, "dv_open": true, "match": true, "stats": true, "stats_merge": true,
 		"observe": true, "layout": false}
 	if needSeg[op.Op] && e.segs[op.Seg] == nil {
@@ -398,7 +431,7 @@ func (e *Env) Do(op *Op) {
 		e.doPersist(op)
 	case "load":
 		e.doLoad(op)
-	case "close_file":
+	case "close_file", "fail_after":
 		e.doCloseFile(op)
 	case "def_bm":
 		bm := roaring.New()
@@ -454,6 +487,8 @@ func (e *Env) Do(op *Op) {
 		e.emit(M{"ev": "skip", "op": "watchdog"})
 	case "it_count":
 		e.doItCount(op)
+	case "dict_close":
+		e.doDictClose(op)
 	case "it_close":
 		e.doItClose(op)
 	case "it_close_last":
@@ -588,14 +623,15 @@ func (e *Env) doMerge(op *Op) {
 	var buf bytes.Buffer
 	var n int64
 	var err error
-	class := e.call(func() { n, err = m.WriteTo(&buf, make(chan struct{})) })
+	w, done := wrapDest(&buf, op)
+	class := e.call(func() { n, err = m.WriteTo(w, make(chan struct{})) })
 	res := resKind(class, err)
 	mode := op.Mode
 	if mode == 0 {
 		mode = 1025
 	}
 	if res["kind"] == "ok" {
-		data := append([]byte{}, buf.Bytes()...)
+		data := append([]byte{}, done()...)
 		segMu.Lock()
 		e.files[op.File] = data
 		segMu.Unlock()
@@ -650,10 +686,11 @@ func (e *Env) doPersist(op *Op) {
 	var buf bytes.Buffer
 	var n int64
 	var err error
-	class := e.call(func() { n, err = h.seg.WriteTo(&buf, nil) })
+	w, done := wrapDest(&buf, op)
+	class := e.call(func() { n, err = h.seg.WriteTo(w, nil) })
 	res := resKind(class, err)
 	if res["kind"] == "ok" {
-		data := append([]byte{}, buf.Bytes()...)
+		data := append([]byte{}, done()...)
 		segMu.Lock()
 		e.files[op.File] = data
 		segMu.Unlock()
@@ -666,6 +703,25 @@ func (e *Env) doPersist(op *Op) {
 		}
 	}
 	e.emit(M{"ev": "persist", "seg": op.Seg, "file": op.File, "res": res})
+}
+
+// wrapDest gives the destination of a persist/merge: the plain buffer, or (op.Wrap > 0) a caller-owned
+// *bufio.Writer of that size in which op.Pre bytes of the caller's own data are still pending. done() flushes
+// as the caller would and returns the bytes that arrived after the caller's own.
+func wrapDest(buf *bytes.Buffer, op *Op) (io.Writer, func() []byte) {
+	if op.Wrap <= 0 {
+		return buf, func() []byte { return buf.Bytes() }
+	}
+	bw := bufio.NewWriterSize(buf, op.Wrap)
+	pre := make([]byte, op.Pre)
+	for i := range pre {
+		pre[i] = 0xEE
+	}
+	bw.Write(pre)
+	return bw, func() []byte {
+		bw.Flush()
+		return buf.Bytes()[op.Pre:]
+	}
 }
 
 func (e *Env) doLoad(op *Op) {
@@ -697,6 +753,8 @@ func (e *Env) doLoad(op *Op) {
 		if err != nil {
 			panic(err)
 		}
+		h.cr = &countingReaderAt{f: f}
+		setDataReader(sd, h.cr)
 	} else {
 		sd = segment.NewDataBytes(append([]byte{}, data...))
 	}
@@ -721,7 +779,11 @@ func (e *Env) doLoad(op *Op) {
 
 func (e *Env) doCloseFile(op *Op) {
 	h := e.seg(op.Seg)
-	if h.file != nil {
+	if op.Op == "fail_after" && h.cr != nil {
+		// the storage keeps working for op.N more reads, then fails for good
+		atomic.StoreInt64(&h.cr.allow, int64(op.N))
+		atomic.StoreInt32(&h.cr.armed, 1)
+	} else if h.file != nil {
 		h.file.Close()
 	}
 	e.emit(M{"ev": "close_file", "seg": op.Seg})
@@ -792,6 +854,23 @@ func (e *Env) dictOf(h *segH, field string, reuse bool) (segment.Dictionary, err
 		h.dicts[field] = d
 	}
 	return d, err
+}
+
+// doDictClose closes a Dictionary object (a fresh one, or the one the harness keeps for reuse - which is then
+// forgotten: a closed dictionary is not used again). Every other lookup must go on as before.
+func (e *Env) doDictClose(op *Op) {
+	h := e.seg(op.Seg)
+	var err error
+	class := e.call(func() {
+		var d segment.Dictionary
+		d, err = e.dictOf(h, op.Field, op.ReuseD)
+		if err != nil {
+			return
+		}
+		err = d.Close()
+	})
+	delete(h.dicts, op.Field)
+	e.emit(M{"ev": "dict_close", "seg": op.Seg, "field": op.Field, "res": resKind(class, err)})
 }
 
 func (e *Env) doDict(op *Op) {
